@@ -257,6 +257,11 @@ func (u *Unit) heap(env *Env, name string, sort Sort) Term {
 func (u *Unit) entryHeapAxioms(name string, h Term) {
 	es := arrElemSort(h.Sort)
 	u.birthDecl()
+	if name == mapLenName {
+		r := u.D.Bound("r", SRef)
+		u.D.Axiom("maplen-nonneg:"+h.S, Forall([]Term{r}, le(IntLit(0), Select(h, r)), []Term{Select(h, r)}).S)
+		return
+	}
 	switch {
 	case es == SRef:
 		r := u.D.Bound("r", SRef)
@@ -1190,7 +1195,18 @@ func (u *Unit) havocLoop(env *Env, li loopInfo) {
 	}
 }
 
+// assume a fact unless it mentions a bound variable (spec evaluation under a quantifier)
+func (u *Unit) assumeGround(env *Env, t Term) {
+	if strings.Contains(t.S, "?") {
+		return
+	}
+	env.assume(t)
+}
+
 func (u *Unit) knownRefsOf(env *Env, t Term) {
+	if strings.Contains(t.S, "?") {
+		return
+	}
 	switch t.Sort {
 	case SRef:
 		u.assumeKnownRef(env, t)
@@ -1221,6 +1237,10 @@ func (u *Unit) havocHeaps(env *Env, only map[string]bool) {
 
 // objects that existed at entry and are outside the modifies set keep their entry contents
 func (u *Unit) frameAxiom(env *Env, name string, nh Term) {
+	if name == mapLenName {
+		r := u.D.Bound("r", SRef)
+		env.assume(Forall([]Term{r}, le(IntLit(0), Select(nh, r)), []Term{Select(nh, r)}))
+	}
 	h0 := u.entry.heaps[name]
 	if h0.S == "" {
 		return
@@ -1396,6 +1416,7 @@ func (u *Unit) execRangeSlice(st *ast.RangeStmt, env *Env, label string, x Value
 	// body
 	be := env
 	be.assume(lt(k, n))
+	be.alias[fmt.Sprintf("_i%d", u.loopOrdinal(st))] = k
 	delete(be.alias, "_i")
 	if kobj != nil {
 		delete(be.alias, kobj.Name())
@@ -1406,7 +1427,7 @@ func (u *Unit) execRangeSlice(st *ast.RangeStmt, env *Env, label string, x Value
 		be.vars[vobj] = u.define(be, vobj.Name(), elem)
 		u.knownRefsOf(be, be.vars[vobj])
 		if es == SSlice {
-			be.assume(u.validSliceT(be.vars[vobj]))
+			u.assumeGround(be, u.validSliceT(be.vars[vobj]))
 		}
 	}
 	for _, o := range u.execBlock(st.Body.List, be) {
@@ -1449,7 +1470,8 @@ func (u *Unit) execRangeMap(st *ast.RangeStmt, env *Env, label string, x Value, 
 	env.assume(Forall([]Term{j}, Imp(And(le(IntLit(0), j), lt(j, n)), And(Select(dom0, Select(enum, j)), Same(ki(Select(enum, j)), j))), []Term{Select(enum, j)}))
 	env.assume(Forall([]Term{kk}, Imp(And(Not(isNil), Select(dom0, kk)), And(le(IntLit(0), ki(kk)), lt(ki(kk), n), Same(Select(enum, ki(kk)), kk))), []Term{Select(dom0, kk)}, []Term{ki(kk)}))
 	u.assumeUsed("map iteration visits every key present at loop entry exactly once, in an arbitrary order (keys inserted during the loop are not visited)")
-	u.mapIter = append(u.mapIter, mapIterInfo{enum: enum, ki: kiName, n: n, dom0: dom0})
+	u.mapIter = append(u.mapIter, mapIterInfo{enum: enum, ki: kiName, n: n, dom0: dom0, keyTy: xt.Key()})
+	env.alias["_n"] = n
 	defer func() { u.mapIter = u.mapIter[:len(u.mapIter)-1] }()
 
 	env.alias["_i"] = IntLit(0)
@@ -1509,10 +1531,11 @@ func (u *Unit) execRangeMap(st *ast.RangeStmt, env *Env, label string, x Value, 
 }
 
 type mapIterInfo struct {
-	enum Term
-	ki   string
-	n    Term
-	dom0 Term
+	keyTy types.Type
+	enum  Term
+	ki    string
+	n     Term
+	dom0  Term
 }
 
 func nodeString(fset *token.FileSet, n ast.Node) string {
